@@ -993,6 +993,9 @@ class XandikosBackend(webdav.Backend):
     def create_collection(self, relpath):
         # resolve "." and ".." segments (as get_resource does), anchored at the root
         relpath = posixpath.normpath(posixpath.join("/", relpath))
+        if GIT_PATH in relpath.split(posixpath.sep):
+            # nothing inside a repository's control directory is a resource
+            raise FileNotFoundError(relpath)
         p = self._map_to_file_path(relpath)
         return Collection(self, relpath, TreeGitStore.create(p))
 
@@ -1012,6 +1015,9 @@ class XandikosBackend(webdav.Backend):
             raise ValueError("relpath %r should start with /")
         if relpath == "/":
             return RootPage(self)
+        if GIT_PATH in relpath.split(posixpath.sep):
+            # nothing inside a repository's control directory is a resource
+            return None
         p = self._map_to_file_path(relpath)
         if p is None:
             return None
